@@ -182,7 +182,7 @@ func routingStageRule(o *Ob) {
 	for _, rs := range e.ResultStores(fn, 2) {
 		if r.Has(rs.Instr) {
 			n++
-			o.Check(strings.HasPrefix(e.X(fn, rs.Val), "errors.New("), "rs-missing", "a receiver without pipeline must be an error", rs.Instr)
+			o.Check(isErrCtor(e.X(fn, rs.Val)), "rs-missing", "a receiver without pipeline must be an error", rs.Instr)
 		}
 	}
 	o.Check(n > 0, "rs-missing-noexit", "no exit for a receiver without pipeline", nil)
